@@ -66,6 +66,21 @@ def run(cx, chk):
                         ok = False
                         chk.violation("C16.R1", "%s|%s" % (f["q"], fld), "clone of %s builds field `%s` from %s instead of from self.%s" % (
                             im["self_head"], fld, ("self." + src) if src else fmt_val(v)[:60], fld), f["span"]["file"], f["span"]["lo"], f["q"], None, cfg)
+            # a copied field goes into the clone as it is: clone() hands no value to a function of this crate by mutable reference
+            # (`let mut t = self.t.clone(); if ..{ t.clear() }` passes the field-source test above and still hands out different state)
+            for p in paths:
+                for e in p.events:
+                    if e["ev"] not in ("call", "enter"):
+                        continue
+                    g = F.fns.get(e.get("def"))
+                    if g and any(isinstance(t, dict) and t.get("k") == "ref" and t.get("m") for t in g.get("inputs", [])):
+                        ok = False
+                        chk.violation("C16.R1", "%s|post-processed|%s" % (f["q"], g["q"]), "clone of %s passes a value to %s by mutable reference: the state it hands out is not the copied state" % (
+                            im["self_head"], g["q"]), f["span"]["file"], e.get("ln") or f["span"]["lo"], f["q"], None, cfg)
+                        break
+                else:
+                    continue
+                break
             if ok:
                 chk.ob("C16.R1", "%s:%s" % (cfg, f["q"]), "%d fields each cloned from the same field" % len(fields), {"fields": fields})
         chk.floor("C16.R1", "struct Clone impls in %s" % cfg, n, 6)
